@@ -47,7 +47,7 @@ def queries(ctx):
     if ctx.thorough:
         t0 = len(qs)
         k = 0
-        for (a, b, c, d) in ((1, 1, 1, 1), (8, 8, 8, 8), (7, 3, 7, 3), (6, 4, 3, 8), (5, 5, 4, 4), (2, 9, 2, 8)):
+        for (a, b, c, d) in ((1, 1, 2, 2), (8, 8, 8, 8), (7, 3, 7, 3), (6, 4, 3, 8), (5, 5, 4, 4), (2, 9, 2, 8)):
             for (ky, kt) in ((0, 0), (1, 2)):
                 k += 1
                 o1("t_%d_%d_%d_%d_k%d%d" % (a, b, c, d, ky, kt), a, b, c, d, ky=ky, kt=kt, ncy=1 + k % 4, nct=1 + (k * 3) % 5, sty=k % 2, stt=(k // 2) % 2)
